@@ -1,6 +1,6 @@
 (* Non-vacuity: concrete documents that satisfy wf_json, and the model run on them. *)
 Require Import PG.Base.Bytes PG.Base.GoSlice PG.Base.Value.
-Require Import PG.C06.JsonbModel PG.C06.JsonbSpec PG.C06.JsonbInst PG.C06.JsonbFuelProofs.
+Require Import PG.C06.JsonbModel PG.C06.JsonbSpec PG.C06.JsonbInst PG.C06.JsonbFuelProofs PG.C06.JsonbOffsetsProofs.
 
 Definition ex_key (i : nat) : bytes := [x6b; z2b (Z.of_nat (48 + i / 10)); z2b (Z.of_nat (48 + i mod 10))].
 Definition ex_elem (i : nat) : json :=
@@ -22,3 +22,26 @@ Example ex_null_wf : wf_json JNull.
 Proof. apply wf_jsonb_sound. vm_compute. reflexivity. Qed.
 Example ex_null_decode : x_DecodeType_jsonb (exact (enc_jsonb JNull)) = JOk VNil.
 Proof. vm_compute. reflexivity. Qed.
+
+(* The overlap bomb (the defect the offset walk repairs): a 3-entry array [container of length L,
+   null carrying HAS_OFF with stored end offset 0, container of length L] nested d times; both
+   container entries covered the SAME L bytes, so the unrepaired decoder did 2^d nested decodes on
+   4 + 16 d bytes.  The repaired parser rejects it at the outermost container. *)
+Fixpoint bomb (d : nat) : bytes :=
+  match d with
+  | O => le_enc 4 1073741824                                  (* empty array *)
+  | S k => let c := bomb k in
+           le_enc 4 (1073741824 + 3) ++ le_enc 4 (1342177280 + blen c) ++
+           le_enc 4 (2147483648 + 1073741824) ++ le_enc 4 (1342177280 + blen c) ++ c
+  end.
+Example ex_bomb_rejected :
+  x_ParseJSONB (exact (bomb 40)) = JOk VNil /\ x_parseJSONB (exact (bomb 40)) = JOk None /\ blen (bomb 40) = 644.
+Proof. vm_compute. repeat split; reflexivity. Qed.
+(* the placeholder numeric decoder is a scalar: the hypothesis of C06_nodes_linear is satisfiable *)
+Example ex_num_token_scalar : forall b, nodes (num_token b) <= 1.
+Proof. intros b. cbn [num_token nodes]. lia. Qed.
+(* the hypothesis of C06_children_disjoint is satisfiable: the big example document is accepted *)
+Example ex_big_accepted :
+  exists v, parse_body num_token (fun s => r <~ parseJSONB_f num_token (Z.to_nat (blen (enc_jsonb ex_big))) s ;; JOk (unopt r))
+              (exact (enc_jsonb ex_big)) = JOk (Some v).
+Proof. eexists. vm_compute. reflexivity. Qed.
